@@ -58,6 +58,8 @@ const (
 	routeDecoy      = 6 // the duty's own data travels in the batch entry of an unrelated plain account; the entry for the
 	// account is a harmless later attestation that shares slot and committee index with it. The signature returned for
 	// the account counts as a release of the duty if it is a valid partial signature over the duty.
+	routeBatch2Pad = 7 // as routeBatch2Key, the account addressed by its share public key followed by one more byte (the
+	// account lookup uses the first 48 bytes)
 	routeStale = 5 // not a duty at all: a batch of two whose entry for the account is an older attestation (source 0,
 	// target 1), which is refused once anything later has been signed; neither duty may become signable through it
 )
@@ -71,7 +73,7 @@ func signDuty(c *rig.Cluster, id uint64, account string, d duty, route int) []by
 	n := c.Nodes[id]
 	creds := &checker.Credentials{Client: rig.DefaultClient, RequestID: "s", IP: "10.0.0.1"}
 	name, key := account, []byte(nil)
-	if route == routeSingleKey || route == routeBatch2Key || route == routeBatch2Last {
+	if route == routeSingleKey || route == routeBatch2Key || route == routeBatch2Last || route == routeBatch2Pad {
 		_, acc, err := n.Rig.RealFetch.FetchAccount(n.Rig.Ctx, account)
 		if err != nil {
 			return nil
@@ -88,6 +90,14 @@ func signDuty(c *rig.Cluster, id uint64, account string, d duty, route int) []by
 		_, sigs := n.Rig.Signer.SignBeaconAttestations(n.Rig.Ctx, creds, []string{name}, nil, []*rules.SignBeaconAttestationData{data})
 		if len(sigs) > 0 {
 			return sigs[0]
+		}
+		return nil
+	case routeBatch2Pad:
+		comp := n.Rig.AddSymAccount("Wallet 1", "", "pass", true)
+		_, sigs := n.Rig.Signer.SignBeaconAttestations(n.Rig.Ctx, creds, []string{"", ""}, [][]byte{comp.PubBytes(), append(append([]byte{}, key...), 0)},
+			[]*rules.SignBeaconAttestationData{AttData(Ent{S: 0, T: 1, Root: 1}), data})
+		if len(sigs) > 1 {
+			return sigs[1]
 		}
 		return nil
 	case routeBatch2Key:
@@ -163,7 +173,7 @@ func signStale(c *rig.Cluster, id uint64, account string) {
 // c14RoutedSequences: every sequence of length <= 2 over the routed duties (5 routes for attestations, the two
 // single routes for proposals), plus every sequence of length 3 over the plain single-by-name duties.
 func c14RoutedSequences(prop bool) [][]int {
-	routes := []int{routeSingleName, routeSingleKey, routeBatch1Name, routeBatch2Key, routeBatch2Last}
+	routes := []int{routeSingleName, routeSingleKey, routeBatch1Name, routeBatch2Key, routeBatch2Last, routeBatch2Pad}
 	if prop {
 		routes = []int{routeSingleName, routeSingleKey}
 	}
@@ -526,7 +536,7 @@ func C14(tier string) int {
 			for _, seq := range c14RoutedSequences(false) {
 				hasBatch2 := false
 				for _, sym := range seq {
-					if r := symRoute(sym); r == routeBatch2Key || r == routeBatch2Last || r == routeStale || r == routeDecoy {
+					if r := symRoute(sym); r == routeBatch2Key || r == routeBatch2Last || r == routeStale || r == routeDecoy || r == routeBatch2Pad {
 						hasBatch2 = true
 					}
 				}
@@ -559,7 +569,7 @@ func C14(tier string) int {
 	run.Coverage = map[string]any{
 		"evaluations":                         cells + schedExecs,
 		"distinct_nontrivial":                 len(outcomes),
-		"rule":                                fmt.Sprintf("for every accepted (n,t) with n <= %d and every conflicting pair (double vote with same and with other source, surround, double proposal, and double votes / double proposal at the lowest legal values 0->0, 0->1, slot 0): every assignment of request sequences over the two duties to the instances (all 15 sequences of length <= 3 per instance for n <= %d, five representative sequences above), each on a freshly DKG-generated account on real instances; on a 2-of-2 account one instance additionally receives every sequence of length <= 2 over duty x route (single by name, single by share key, batch of one, batch of two after an approved companion, batch of two before a refused companion) and sequences with a refused older attestation for the account, sent inside a batch, before, between and after the duties, and sequences in which a duty's data travels in another account's batch entry while the account's own entry shares slot and committee index with it; the sequences containing a batch of two also with GOMAXPROCS=1 so that one Scatter worker handles the whole batch; per assignment no instance may release partial signatures for both duties, and real threshold recovery over every t-subset must not succeed for both duties; plus both duties delivered concurrently to one instance under the cooperative scheduler (preemption bound %d); distinct = (n,t,pair,outcome vector) classes", maxN, fullN, bound),
+		"rule":                                fmt.Sprintf("for every accepted (n,t) with n <= %d and every conflicting pair (double vote with same and with other source, surround, double proposal, and double votes / double proposal at the lowest legal values 0->0, 0->1, slot 0): every assignment of request sequences over the two duties to the instances (all 15 sequences of length <= 3 per instance for n <= %d, five representative sequences above), each on a freshly DKG-generated account on real instances; on a 2-of-2 account one instance additionally receives every sequence of length <= 2 over duty x route (single by name, single by share key, batch of one, batch of two after an approved companion, batch of two before a refused companion, batch of two with the share key followed by an extra byte) and sequences with a refused older attestation for the account, sent inside a batch, before, between and after the duties, and sequences in which a duty's data travels in another account's batch entry while the account's own entry shares slot and committee index with it; the sequences containing a batch of two also with GOMAXPROCS=1 so that one Scatter worker handles the whole batch; per assignment no instance may release partial signatures for both duties, and real threshold recovery over every t-subset must not succeed for both duties; plus both duties delivered concurrently to one instance under the cooperative scheduler (preemption bound %d); distinct = (n,t,pair,outcome vector) classes", maxN, fullN, bound),
 		"samples":                             samples.List(),
 		"routed_sequences_with_one_processor": oneProc,
 		"exhaustive":                          !capped,
